@@ -251,6 +251,23 @@ Example C14_reck_map_reproduces_nonvacuous :
                 (tab Cr 2 (flip 2 (mid Cr))))) = [true].
 Proof. exact example_identity2. Qed.
 
+(* a second instance, through the generic branch: the 2 x 2 swap [[0,1],[1,0]] ([swap2]); the
+   entry to null is 1, the oracle answers theta = 2 arctan(0/1) = 0, phi = 0 - 0, and the
+   nulled matrix is diag(-i, -i), end phases -pi/2 *)
+Example C14_reck_map_reproduces_nonvacuous_generic :
+  forall ints unif norm,
+    let ans : nat -> R * R := fun _ => (0, 0)%R in
+    let endo : nat -> R := fun _ => (- (PI / 2))%R in
+    unitary Cr 2 swap2 /\
+    steps_ok (/ 4) (/ 4) 0 ints unif norm 2 ans (reck_steps 2) 0 (tab Cr 2 (flip 2 swap2)) /\
+    (forall a, a < 2 ->
+       angle_ok (snd (decomp_loop rops (renv (/ 4) (/ 4) 0 ints unif norm) 2 ans (reck_steps 2) 0
+                        (tab Cr 2 (flip 2 swap2))) a a) (endo a)) /\
+    map (fun r => nr_small r)
+        (fst (decomp_loop rops (renv (/ 4) (/ 4) 0 ints unif norm) 2 ans (reck_steps 2) 0
+                (tab Cr 2 (flip 2 swap2)))) = [false].
+Proof. exact example_swap2. Qed.
+
 (* every programmed phase is (v + offset) % (2 pi): with the real modulo it lies in
    [0, 2 pi) for every real v, and taking the modulo does not change exp(i .) *)
 Theorem C14_programmed_phase_in_range :
